@@ -464,8 +464,21 @@ func ruleSkipDiscipline(c *Ctx, rule string, exceptions map[string]string) {
 					ob.Bad(g.fn.Name() + " decides on its index argument before skipping, and this function passes its own unskipped parameter")
 				}
 			default:
+				idxArg := ssa.Value(nil)
+				for _, av := range call.Call.Args {
+					if bt, ok := av.Type().Underlying().(*types.Basic); ok && bt.Kind() == types.Int {
+						idxArg = av
+					}
+				}
 				if why, ok := exceptions[f.fn.Name()+": call of "+g.fn.Name()]; ok {
 					ob.Exc(why)
+				} else if u, isLoad := idxArg.(*ssa.UnOp); isLoad && u.Op == token.MUL {
+					if _, isField := u.X.(*ssa.FieldAddr); isField {
+						// a cursor object: the position lives in a field that its methods (skip, advance) update
+						ob.Und("the index handed to " + g.fn.Name() + " is read from a field of a cursor object (" + exprStr(idxArg) + "); whether its methods have skipped layout before this call is not followed")
+					} else {
+						ob.Bad(fmt.Sprintf("%s looks at tokens[index] before skipping, but this call passes a raw index: whitespace or a comment at this position changes the parse", g.fn.Name()))
+					}
 				} else {
 					ob.Bad(fmt.Sprintf("%s looks at tokens[index] before skipping, but this call passes a raw index: whitespace or a comment at this position changes the parse", g.fn.Name()))
 				}
